@@ -64,7 +64,12 @@ func NewStackWithData(root map[string]any, originalData any) *Stack {
 		root = map[string]any{}
 	}
 	s.stack = []map[string]any{root}
-	s.rootData = originalData
+	// A map passed as data already is the root scope. Keeping it as rootData
+	// too would make its later keys visible through the struct-field fallback
+	// of every copy of this stack.
+	if _, isMap := originalData.(map[string]any); !isMap {
+		s.rootData = originalData
+	}
 	return s
 }
 
